@@ -35,6 +35,10 @@ class PrefixSid(Attribute):
     FLAG: int = Attribute.Flag.TRANSITIVE | Attribute.Flag.OPTIONAL
     CACHING: ClassVar[bool] = True
     TLV: ClassVar[int] = -1
+    # RFC 8669 section 6: a malformed BGP Prefix-SID attribute is discarded (RFC 7606 attribute discard).
+    # Without the flag the ValueError of a TLV of the wrong size left the decoder untyped and the
+    # reactor's catch-all reset the session (1/0)
+    DISCARD: ClassVar[bool] = True
 
     # Registered subclasses we know how to decode
     registered_srids: ClassVar[dict[int, Type[Any]]] = dict()
